@@ -29,7 +29,7 @@ type Lit struct {
 }
 
 type Expr struct {
-	K    string  `json:"k"` // int | str | var | bin | cmp | asg | tmpl | arr | par
+	K    string  `json:"k"` // int | str | var | bin | cmp | asg | tmpl | arr | par | call (Name(Arr...))
 	N    int64   `json:"n,omitempty"`
 	S    *Lit    `json:"s,omitempty"`
 	D    int     `json:"d,omitempty"` // delimiter of a str literal (0 or 1)
@@ -42,9 +42,21 @@ type Expr struct {
 	Sp   string  `json:"sp,omitempty"` // whitespace around the operator / '='
 }
 
+// FnDef is a function definition statement: func Name(Params) { return-less Body }; the body is an int
+// expression over the parameters and literals (K var names a parameter).
+type FnDef struct {
+	Name   string   `json:"name"`
+	Params []string `json:"params,omitempty"`
+	Body   *Expr    `json:"body"`
+}
+
 type Stmt struct {
-	K    string  `json:"k"` // expr | if | empty
+	K    string  `json:"k"` // expr | if | empty | func | while
 	E    *Expr   `json:"e,omitempty"`
+	Fn   *FnDef  `json:"fn,omitempty"` // func
+	// while: `Ctr = 0; while Ctr < Bound { Then; Ctr = Ctr + 1 }` (Ctr an int variable, Bound 0..3)
+	Ctr   string `json:"ctr,omitempty"`
+	Bound int64  `json:"bound,omitempty"`
 	Cond *Expr   `json:"cond,omitempty"`
 	Then []*Stmt `json:"then,omitempty"`
 	Else []*Stmt `json:"else,omitempty"` // used when HasElse
@@ -78,6 +90,9 @@ type Tmpl struct {
 var intVars = []string{"n1", "n2", "i1", "j2", "$n", "_n", "力量"}
 var strVars = []string{"s1", "s2", "t1", "u_x", "$s", "名字"}
 var arrVars = []string{"v1", "w2", "数组"}
+var ctrVars = []string{"k1", "k2"} // loop counters: never assigned by generated statements
+var fnNames = []string{"f1", "f2", "函数"}
+var fnParams = []string{"p1", "p2", "p3"}
 
 func varType(name string) byte {
 	for _, n := range intVars {
@@ -93,6 +108,11 @@ func varType(name string) byte {
 	for _, n := range arrVars {
 		if n == name {
 			return 'a'
+		}
+	}
+	for _, n := range ctrVars {
+		if n == name {
+			return 'i'
 		}
 	}
 	if strings.HasPrefix(name, "g") || name == "r" { // depth section: g<k> are strings, wrapper result r
@@ -187,6 +207,15 @@ func (p *printer) expr(e *Expr, min int) {
 		p.w("(" + e.Sp)
 		p.expr(e.L, 0)
 		p.w(")")
+	case "call":
+		p.w(e.Name + "(")
+		for i, x := range e.Arr {
+			if i > 0 {
+				p.w("," + e.Sp)
+			}
+			p.expr(x, precCmp)
+		}
+		p.w(")")
 	default:
 		p.err = fmt.Errorf("unknown expression kind %q", e.K)
 	}
@@ -240,6 +269,43 @@ func (p *printer) stmts(list []*Stmt, trail bool) {
 			}
 		case "if":
 			p.ifStmt(st)
+			if !last {
+				sep := st.Sep
+				if !okSep(sep, false) {
+					sep = " "
+				}
+				p.w(sep)
+			}
+		case "func":
+			if st.Fn == nil {
+				p.err = errors.New("func statement without a definition")
+				return
+			}
+			p.w("func " + st.Fn.Name + "(" + strings.Join(st.Fn.Params, ", ") + ") { ")
+			p.expr(st.Fn.Body, 0)
+			p.w(" }")
+			if !last {
+				sep := st.Sep
+				if !okSep(sep, true) {
+					sep = ";"
+				}
+				p.w(sep)
+			}
+		case "while":
+			p.w(st.Ctr + " = 0; while " + st.Ctr + " < " + strconv.FormatInt(st.Bound, 10) + " ")
+			in := st.In
+			if !okWS(in) || in == "" {
+				in = " "
+			}
+			p.w("{" + in)
+			p.stmts(st.Then, false)
+			if len(st.Then) > 0 {
+				if k := st.Then[len(st.Then)-1].K; k == "expr" || k == "func" {
+					p.w(";")
+				}
+				p.w(" ")
+			}
+			p.w(st.Ctr + " = " + st.Ctr + " + 1" + in + "}")
 			if !last {
 				sep := st.Sep
 				if !okSep(sep, false) {
@@ -409,7 +475,10 @@ var (
 const intBound = int64(1) << 53
 
 type evaluator struct {
-	env map[string]Val
+	env   map[string]Val
+	funcs map[string]*FnDef
+	// funcsInHole / loopsInHole: function definitions and loop rounds executed inside a hole
+	funcsInHole, loopsInHole int
 	// statistics for the non-triviality rule
 	holes     int
 	maxDepth  int
@@ -418,7 +487,9 @@ type evaluator struct {
 	ifsInHole int
 }
 
-func newEvaluator() *evaluator { return &evaluator{env: map[string]Val{}} }
+func newEvaluator() *evaluator {
+	return &evaluator{env: map[string]Val{}, funcs: map[string]*FnDef{}}
+}
 
 func (ev *evaluator) expr(e *Expr) (Val, error) {
 	if e == nil {
@@ -527,6 +598,27 @@ func (ev *evaluator) expr(e *Expr) (Val, error) {
 			return Val{}, err
 		}
 		return Val{K: 's', S: s}, nil
+	case "call":
+		fn := ev.funcs[e.Name]
+		if fn == nil || len(fn.Params) != len(e.Arr) {
+			return Val{}, errInvalid
+		}
+		// a function has its own variable space: the body sees its parameters only
+		callee := &evaluator{env: map[string]Val{}, funcs: map[string]*FnDef{}}
+		for i, x := range e.Arr {
+			v, err := ev.expr(x)
+			if err != nil {
+				return Val{}, err
+			}
+			if v.K != 'i' {
+				return Val{}, errInvalid
+			}
+			callee.env[fn.Params[i]] = v
+		}
+		if !pureIntExpr(fn.Body) {
+			return Val{}, errInvalid
+		}
+		return callee.expr(fn.Body)
 	case "arr":
 		out := Val{K: 'a', A: []int64{}}
 		for _, x := range e.Arr {
@@ -542,6 +634,22 @@ func (ev *evaluator) expr(e *Expr) (Val, error) {
 		return out, nil
 	}
 	return Val{}, errInvalid
+}
+
+// pureIntExpr: literals, parameters, + - * and parentheses only (what a generated function body holds).
+func pureIntExpr(e *Expr) bool {
+	if e == nil {
+		return false
+	}
+	switch e.K {
+	case "int", "var":
+		return true
+	case "par":
+		return pureIntExpr(e.L)
+	case "bin":
+		return pureIntExpr(e.L) && pureIntExpr(e.R)
+	}
+	return false
 }
 
 func truthy(v Val) bool {
@@ -572,6 +680,35 @@ func (ev *evaluator) stmts(list []*Stmt) (last Val, has bool, err error) {
 		case "if":
 			if err := ev.ifStmt(st); err != nil {
 				return Val{}, false, err
+			}
+		case "func":
+			if st.Fn == nil || varType(st.Fn.Name) != 0 {
+				return Val{}, false, errInvalid
+			}
+			ev.funcs[st.Fn.Name] = st.Fn
+			if ev.depth > 0 {
+				ev.funcsInHole++
+			}
+		case "while":
+			if varType(st.Ctr) != 'i' || st.Bound < 0 || st.Bound > 8 {
+				return Val{}, false, errInvalid
+			}
+			ev.env[st.Ctr] = Val{K: 'i', I: 0}
+			for rounds := 0; ev.env[st.Ctr].I < st.Bound; rounds++ {
+				if rounds > 16 {
+					return Val{}, false, errInvalid
+				}
+				if _, _, err := ev.stmts(st.Then); err != nil {
+					return Val{}, false, err
+				}
+				c := ev.env[st.Ctr]
+				if c.K != 'i' {
+					return Val{}, false, errInvalid
+				}
+				ev.env[st.Ctr] = Val{K: 'i', I: c.I + 1}
+				if ev.depth > 0 {
+					ev.loopsInHole++
+				}
 			}
 		default:
 			return Val{}, false, errInvalid
@@ -622,7 +759,8 @@ func holeAmbiguous(h *Hole) bool {
 			lastKind = st.K
 		}
 	}
-	return sawExpr && lastKind != "expr"
+	// a function definition as the last statement leaves the function value (undocumented): outside the domain too
+	return (sawExpr && lastKind != "expr") || lastKind == "func"
 }
 
 func (ev *evaluator) tmpl(t *Tmpl) (string, error) {
@@ -678,6 +816,7 @@ func envString(env map[string]Val) string {
 // generator
 
 type gen struct {
+	funcs map[string]int // function name -> number of parameters, as defined so far
 	t        *rapid.T
 	budget   int             // remaining AST nodes
 	defined  map[string]bool // variables definitely assigned at this point
@@ -717,6 +856,20 @@ func (g *gen) ws() string {
 func (g *gen) intExpr(depth int) *Expr {
 	g.budget--
 	vars := g.definedOf(intVars)
+	if len(g.funcs) > 0 && depth > 0 && g.budget > 0 && rapid.IntRange(0, 3).Draw(g.t, "callFn") == 0 {
+		names := make([]string, 0, len(g.funcs))
+		for _, n := range fnNames {
+			if _, ok := g.funcs[n]; ok {
+				names = append(names, n)
+			}
+		}
+		name := rapid.SampledFrom(names).Draw(g.t, "fnName")
+		e := &Expr{K: "call", Name: name, Sp: g.sp()}
+		for i := 0; i < g.funcs[name]; i++ {
+			e.Arr = append(e.Arr, g.intExpr(depth-1))
+		}
+		return e
+	}
 	k := rapid.IntRange(0, 9).Draw(g.t, "ik")
 	switch {
 	case k <= 2 || depth <= 0 || g.budget <= 0:
@@ -861,6 +1014,45 @@ func (g *gen) ifStmt() *Stmt {
 	return st
 }
 
+// funcStmt defines (or redefines) one of the three function names; the body is an int expression over the parameters.
+func (g *gen) funcStmt() *Stmt {
+	g.budget--
+	fn := &FnDef{Name: rapid.SampledFrom(fnNames).Draw(g.t, "defName")}
+	fn.Params = append([]string(nil), fnParams[:rapid.IntRange(0, 3).Draw(g.t, "nparams")]...)
+	var body func(d int) *Expr
+	body = func(d int) *Expr {
+		k := rapid.IntRange(0, 5).Draw(g.t, "fb")
+		switch {
+		case d <= 0 || k <= 1:
+			if len(fn.Params) > 0 && k%2 == 0 {
+				return &Expr{K: "var", Name: rapid.SampledFrom(fn.Params).Draw(g.t, "fparam")}
+			}
+			return &Expr{K: "int", N: int64(rapid.IntRange(0, 12).Draw(g.t, "fn"))}
+		case k == 2:
+			return &Expr{K: "par", L: body(d - 1)}
+		}
+		return &Expr{K: "bin", Op: rapid.SampledFrom([]string{"+", "-", "*"}).Draw(g.t, "fop"), L: body(d - 1), R: body(d - 1), Sp: g.sp()}
+	}
+	fn.Body = body(2)
+	if g.funcs == nil {
+		g.funcs = map[string]int{}
+	}
+	g.funcs[fn.Name] = len(fn.Params)
+	return &Stmt{K: "func", Fn: fn}
+}
+
+// whileStmt: a counted loop of 0..3 rounds over a few statements.
+func (g *gen) whileStmt() *Stmt {
+	g.budget--
+	st := &Stmt{K: "while", Ctr: rapid.SampledFrom(ctrVars).Draw(g.t, "ctr"), Bound: int64(rapid.IntRange(0, 3).Draw(g.t, "bound")), In: g.ws()}
+	before := copySet(g.defined)
+	g.idepth += 2 // no function definitions and no loop inside a loop body
+	st.Then = g.stmtList(rapid.IntRange(0, 2).Draw(g.t, "nbody"), false)
+	g.idepth -= 2
+	g.defined = before // the body may run zero times
+	return st
+}
+
 // stmtList draws n statements.  valueLast: when the list produces a value at
 // all, its last non-empty statement is an expression (the documented hole value).
 func (g *gen) stmtList(n int, valueLast bool) []*Stmt {
@@ -875,12 +1067,20 @@ func (g *gen) stmtList(n int, valueLast bool) []*Stmt {
 			st = &Stmt{K: "expr", E: g.assign(2)}
 		case k <= 7 && g.idepth < 3 && g.budget > 0:
 			st = g.ifStmt()
-		case k == 8:
+		case k == 8 && rapid.Bool().Draw(g.t, "emptyOrDef"):
 			st = &Stmt{K: "empty"}
+		case k == 8 && g.idepth == 0 && g.budget > 0:
+			st = g.funcStmt()
+		case k == 9 && g.idepth < 2 && g.budget > 0 && rapid.Bool().Draw(g.t, "loop"):
+			st = g.whileStmt()
 		default:
 			st = &Stmt{K: "expr", E: g.valueExpr(1)}
 		}
 		switch st.K {
+		case "func":
+			st.Sep = rapid.SampledFrom([]string{";", "; ", ";\n", " ; "}).Draw(g.t, "fsep")
+		case "while":
+			st.Sep = rapid.SampledFrom([]string{"", " ", ";", "\n", " ; "}).Draw(g.t, "wsep")
 		case "expr":
 			st.Sep = rapid.SampledFrom([]string{";", "; ", " ;", ";\n", " ; ", ";;", "; \n ;"}).Draw(g.t, "sep")
 		case "if":
@@ -901,7 +1101,7 @@ func (g *gen) stmtList(n int, valueLast bool) []*Stmt {
 				lastKind = st.K
 			}
 		}
-		if sawExpr && lastKind != "expr" {
+		if (sawExpr && lastKind != "expr") || lastKind == "func" {
 			list = append(list, &Stmt{K: "expr", E: g.valueExpr(1)})
 		}
 	}
